@@ -946,3 +946,59 @@ fn syn_item_enum_ok(src: &str) -> bool {
 fn vdrive_parse_enum(src: &str) -> bool {
     syn::parse_str::<syn::File>(src).map_or(false, |f| f.items.iter().all(|i| matches!(i, syn::Item::Enum(_))))
 }
+
+
+// ------------------------------------------------------------------------------------ C19 (resource-limited children)
+
+pub const BIG_PATTERNS: &[&str] = &["((((a{65535}){65535}){65535}){65535}){2}", "(a{4294967295}){4294967295}b", "((a{65535}b){65535}c){65535}", "a{0,4294967295}b", "(a{1000}){1000}", "a{100000}b"];
+
+/// child: run generate() on one definition and print the outcome on one line
+pub fn c19big_child(a: &Args) {
+    let src = a.file.clone().expect("--file <enum source>");
+    let g = vdrive::generate(&src, false);
+    match g.observed.panicked {
+        Some(p) => println!("OUTCOME panic {p}"),
+        None => println!("OUTCOME {}", if g.observed.accepted { "accepted" } else { "rejected" }),
+    }
+}
+
+/// Astronomically large counted repetitions: each definition in a child process with an address
+/// space limit (4 GB) and a time limit (60 s). A panic is a PANIC violation; death by memory
+/// exhaustion / timeout is a RESOURCE violation keyed by the exact pattern.
+pub fn c19big(a: &Args) -> Report {
+    let mut rep = Report::new(&a.prop, "vgraph c19big (resource-limited children)", &a.tier_name);
+    let exe = std::env::current_exe().expect("exe");
+    let results: Vec<(String, String)> = BIG_PATTERNS
+        .par_iter()
+        .map(|p| {
+            let src = format!("enum T {{ #[regex(\"{p}\")] A }}");
+            let out = std::process::Command::new("bash")
+                .arg("-c")
+                .arg("ulimit -v 4000000; exec timeout 60 \"$0\" c19big-child --file \"$1\"")
+                .arg(&exe)
+                .arg(&src)
+                .output()
+                .expect("spawn");
+            let text = String::from_utf8_lossy(&out.stdout).to_string();
+            let line = text.lines().find(|l| l.starts_with("OUTCOME")).map(|l| l.to_string()).unwrap_or_else(|| format!("DIED status {:?} {}", out.status.code(), String::from_utf8_lossy(&out.stderr).lines().next().unwrap_or("")));
+            (p.to_string(), line)
+        })
+        .collect();
+    for (p, line) in results {
+        rep.count("evaluations", 1);
+        rep.count("distinct_nontrivial", 1);
+        if line.starts_with("OUTCOME panic") {
+            rep.violations.push(viol("PANIC", "c19big", format!("regex {p}"), format!("generate() panicked: {line}"), json!({"pattern": p})));
+        } else if line.starts_with("DIED") {
+            rep.violations.push(Violation {
+                key: format!("RESOURCE/{p}"),
+                tag: "RESOURCE".into(),
+                case: format!("regex {p}"),
+                detail: format!("the derive neither finishes nor reports a diagnostic within 4 GB / 60 s ({line}): there is no size limit on the automaton"),
+                replay: json!({"kind": "c19big", "tag": "RESOURCE", "pattern": p}),
+            });
+        }
+        rep.observe(&format!("big:{}", line.split_whitespace().take(2).collect::<Vec<_>>().join("_")), 1);
+    }
+    rep
+}
